@@ -17,7 +17,8 @@ func verifPick(name string, opts []string) string {
 	return opts[verifrt.Choice(name, len(opts))]
 }
 
-// VerifC18Validate: Config.Validate accepts exactly the configurations that
+// VerifC18Validate: loading (the real LoadConfig; file system and YAML parser
+// are models under the executor and real natively) accepts exactly the configurations that
 // satisfy the documented constraints (README, shipped sample files). Every
 // integer field is an arbitrary 64-bit value; strings range over the documented
 // enum values, the empty string and an undocumented one. Values the code
@@ -113,7 +114,7 @@ func VerifC18Validate(section int) {
 		c.Logging.Format = verifPick("logging.format", []string{"", "text", "json", "xml"})
 		ok = verifrt.And(ok, c.Logging.Level != "verbose" && c.Logging.Format != "xml")
 	}
-	err := c.Validate()
+	err := verifLoad(c)
 	verifrt.Assert(verifrt.Implies(ok, err == nil), "every configuration that satisfies the documented constraints is accepted")
 	verifrt.Assert(verifrt.Implies(!ok, err != nil), "every configuration that violates a documented constraint is rejected")
 }
